@@ -222,11 +222,12 @@ fn check_path(c: &PathCase) -> Verdict {
                 Step::At(i) => text.push_str(&format!(".{i}")),
             }
         }
-        match Expr::parse(&text) {
-            Ok(e) => exprs.push(("text", e)),
-            Err(e) => {
+        match crate::core::parse_guarded(&text) {
+            Some(Ok(e)) => exprs.push(("text", e)),
+            Some(Err(e)) => {
                 return Err(Issue::new("path:text-does-not-parse", format!("access path {text:?} does not parse: {e}")));
             }
+            None => return Err(Issue::new("path:panic", format!("Expr::parse panicked on access path {text:?}"))),
         }
     }
     for (via, e) in exprs {
